@@ -9,10 +9,12 @@ import (
 	"flag"
 	"fmt"
 	"hash/fnv"
+	"io/ioutil"
 	"math/rand"
 	"os"
 	"regexp"
 	"runtime"
+	"strconv"
 	"strings"
 	"sync"
 	"syscall"
@@ -62,6 +64,8 @@ type Ctx struct {
 	onlyStream  string
 	fromStream  string
 	fromReached bool
+
+	sinceRecycleCheck int
 }
 
 // Thorough reports whether the thorough tier was requested.
@@ -220,7 +224,48 @@ func (c *Ctx) Cases(stream string, n int, fn func(i int, rng *rand.Rand)) {
 		c.mu.Unlock()
 		fn(i, c.Rng(stream, i))
 		c.maybeSnap()
+		c.sinceRecycleCheck++
+		if c.Only < 0 && c.sinceRecycleCheck >= 32 {
+			c.sinceRecycleCheck = 0
+			if rss := rssMiB(); rss > recycleMiB() {
+				// long runs of the bus engines accumulate memory (goroutines parked for ever by seeded hangs,
+				// race-detector shadow state): hand over to a fresh process, the driver resumes at the next case
+				c.Max("max_rss_mib_before_recycling", int64(rss))
+				c.mu.Lock()
+				c.snapLocked(false)
+				c.mu.Unlock()
+				fmt.Fprintf(os.Stderr, "RECYCLE-EXIT rss=%dMiB after %s#%d\n", rss, stream, i)
+				os.Exit(6)
+			}
+		}
 	}
+	c.Max("max_goroutines_after_a_stream", int64(runtime.NumGoroutine()))
+	if os.Getenv("VERIF_DUMP_GOROUTINES") != "" {
+		buf := make([]byte, 64<<20)
+		n := runtime.Stack(buf, true)
+		ioutil.WriteFile(fmt.Sprintf("/tmp/goroutines.%s.%s.%d.txt", c.Prop, stream, c.Shard), buf[:n], 0644)
+	}
+}
+
+// rssMiB reads the resident set size of the process from /proc.
+func rssMiB() int {
+	b, err := ioutil.ReadFile("/proc/self/statm")
+	if err != nil {
+		return 0
+	}
+	f := strings.Fields(string(b))
+	if len(f) < 2 {
+		return 0
+	}
+	pages, _ := strconv.Atoi(f[1])
+	return pages * os.Getpagesize() >> 20
+}
+
+func recycleMiB() int {
+	if v, err := strconv.Atoi(os.Getenv("VERIF_RECYCLE_MIB")); err == nil && v > 0 {
+		return v
+	}
+	return 1536
 }
 
 // Eval counts one more evaluation (for engines that do several per case).
